@@ -403,6 +403,88 @@ enum Sc {
     Proc { chunk_seed: u64, count: usize },
     /// R5: Push evaluation vs input declaration order
     Push { init: VmInit, perm_seed: u64 },
+    /// R5 at scale: `n` (8000 .. 30 000; an input is looked up by a linear scan, so the cost is quadratic) distinct input names, each bound to its own number, declared in a seeded order
+    /// and read in another: every read must give the value declared for exactly that name (whatever names are
+    /// keyed by internally — a hash, an interned id — distinct names must stay distinct)
+    ManyInputs { n: usize, scheme: u8, seed: u64 },
+}
+
+fn many_name(scheme: u8, i: usize, seed: u64) -> String {
+    match scheme % 3 {
+        0 => format!("in{i}"),
+        1 => {
+            // seeded lowercase words of 5..=9 letters followed by the number (so that they are distinct)
+            let mut h = mix(seed, i as u64);
+            let len = 5 + (h % 5) as usize;
+            let mut t = String::new();
+            for _ in 0..len {
+                h = mix(h, 0x9e37);
+                t.push((b'a' + (h % 26) as u8) as char);
+            }
+            format!("{t}{i}")
+        }
+        _ => format!("{:x}", mix(seed, i as u64) ^ ((i as u64) << 40)),
+    }
+}
+
+fn exec_many_inputs(n: usize, scheme: u8, seed: u64, obs: &mut Obs) -> Vec<Violation> {
+    use checks::vm::{build_real_from, Caps};
+    use push::{instruction::{variable_name::VariableName, PushInstruction}, push_vm::program::PushProgram};
+    let mut v = Vec::new();
+    let mut g = Xo::from_seed(seed);
+    let mut names: Vec<(String, i64)> = (0..n).map(|i| (many_name(scheme, i, seed), i as i64)).collect();
+    {
+        // (distinctness of the generated names is the harness's business)
+        let mut sorted: Vec<&String> = names.iter().map(|(s, _)| s).collect();
+        sorted.sort_unstable();
+        sorted.dedup();
+        if sorted.len() != n {
+            return v;
+        }
+    }
+    g.shuffle(&mut names);
+    let declared: Vec<(String, Lit)> = names.iter().map(|(s, i)| (s.clone(), Lit::Int(*i))).collect();
+    g.shuffle(&mut names);
+    let program: Vec<PushProgram> =
+        names.iter().map(|(s, _)| PushProgram::Instruction(PushInstruction::InputVar(VariableName::from(s.as_str())))).collect();
+    let caps = Caps { exec: usize::MAX, int: usize::MAX, float: 4, bool: 4 };
+    let Ok(st) = build_real_from(&caps, Vec::new(), Vec::new(), Vec::new(), program, &declared, usize::MAX) else { return v };
+    obs.hit("probe.evaluation-with>=8000-distinct-inputs");
+    obs.count("steps", n as u64);
+    obs.nontrivial(mix(mix(0x3a4, n as u64), u64::from(scheme)));
+    match catch(move || st.run_to_completion().map(|s| snap(&s).int)) {
+        Err(p) => v.push(Violation::new(
+            "push-evaluation-independent-of-declaration-order",
+            "many-inputs:panic".to_string(),
+            format!("evaluating a program that reads {n} declared inputs panicked: {}", p.message),
+        )),
+        Ok(Err(_)) => v.push(Violation::new(
+            "push-evaluation-independent-of-declaration-order",
+            "many-inputs:error".to_string(),
+            format!("evaluating a program that reads {n} declared inputs failed"),
+        )),
+        Ok(Ok(ints)) => {
+            // bottom-first = in the order read
+            if ints.len() != n {
+                v.push(Violation::new(
+                    "push-evaluation-independent-of-declaration-order",
+                    "many-inputs:count".to_string(),
+                    format!("{n} inputs read, {} values on the int stack", ints.len()),
+                ));
+            } else if let Some(k) = (0..n).find(|k| ints[*k] != names[*k].1) {
+                let other = names.iter().find(|(_, i)| *i == ints[k]).map(|(s, _)| s.clone()).unwrap_or_default();
+                v.push(Violation::new(
+                    "push-evaluation-independent-of-declaration-order",
+                    "many-inputs:wrong-value".to_string(),
+                    format!(
+                        "{n} distinct inputs declared, each with its own number: reading `{}` gave {} (the value declared for `{other}`), declared {}",
+                        names[k].0, ints[k], names[k].1
+                    ),
+                ));
+            }
+        }
+    }
+    v
 }
 
 const ODD_NAMES: [&str; 12] = ["x", "X", "in1", "IN1", "In1", "in10", "é", "É", "", " ", "x ", "xX"];
@@ -665,7 +747,16 @@ impl C16 {
                 }
             })
         };
-        let Some(Ok(base)) = run(&inputs) else { return v };
+        // (a panic — reading an undeclared input — is an outcome like any other; its message is not compared)
+        let class = |r: Result<(String, bool), String>| r.map_err(|_| "evaluation panicked".to_string());
+        let Some(base) = run(&inputs).map(class) else { return v };
+        if base.is_err() {
+            obs.hit("probe.evaluation-panics(undeclared-input)-compared-across-states");
+        }
+        let text = |r: &Result<(String, bool), String>| match r {
+            Ok((t, _)) => t.clone(),
+            Err(t) => t.clone(),
+        };
         obs.count("steps", 1);
         let mut g = Xo::from_seed(perm_seed);
         let perms = if inputs.len() <= 1 { 1 } else { 6 };
@@ -674,7 +765,7 @@ impl C16 {
             if k > 0 {
                 g.shuffle(&mut order);
             } // k == 0: same order, separately built state (fresh hash keys)
-            let Some(Ok(r)) = run(&order) else { continue };
+            let Some(r) = run(&order).map(class) else { continue };
             obs.hit("fault.input-declaration-order-permuted");
             obs.count("steps", 1);
             if r != base {
@@ -685,8 +776,8 @@ impl C16 {
                         "declaring the inputs as {:?} instead of {:?} changed the outcome: {} vs {}",
                         order.iter().map(|(n, _)| n).collect::<Vec<_>>(),
                         inputs.iter().map(|(n, _)| n).collect::<Vec<_>>(),
-                        r.0,
-                        base.0
+                        text(&r),
+                        text(&base)
                     ),
                 ));
                 break;
@@ -714,6 +805,8 @@ impl Check for C16 {
             "fault.concurrent-callers",
             "fault.input-declaration-order-permuted",
             "fault.interleaved-history",
+            "probe.evaluation-panics(undeclared-input)-compared-across-states",
+            "probe.evaluation-with>=8000-distinct-inputs",
         ]
     }
 
@@ -769,6 +862,9 @@ impl Check for C16 {
         if run < procs {
             return Sc::Proc { chunk_seed: g.next_u64(), count: 2000 };
         }
+        if run % 8000 == 4001 {
+            return Sc::ManyInputs { n: g.log_uniform(8_000, 30_000), scheme: (run / 8000) as u8, seed: g.next_u64() };
+        }
         if run % 4 == 3 {
             let sc = vmgen::gen_scenario(g, Bias::Balanced);
             let mut init = sc.init;
@@ -779,6 +875,12 @@ impl Check for C16 {
                 // unusual but legal names: differing only in case, prefixes of
                 // each other, non-ASCII — lookups must still be exact
                 rename_inputs(&mut init, g);
+                if init.inputs.len() >= 2 && g.chance(1, 3) {
+                    // ... and one of them is NOT declared although the program reads it (whatever evaluation does
+                    // then — today it panics — it must do the same in every separately built state)
+                    let k = g.usize_below(init.inputs.len());
+                    init.inputs.remove(k);
+                }
             }
             return Sc::Push { init, perm_seed: g.next_u64() };
         }
@@ -797,6 +899,7 @@ impl Check for C16 {
             Sc::Op { op, data, rng_a, rng_b, threads } => self.exec_op(*op, data, rng_a, rng_b, *threads, obs),
             Sc::Proc { chunk_seed, count } => self.exec_proc(*chunk_seed, *count, obs),
             Sc::Push { init, perm_seed } => Self::exec_push(init, *perm_seed, obs),
+            Sc::ManyInputs { n, scheme, seed } => exec_many_inputs(*n, *scheme, *seed, obs),
         }
     }
 
@@ -822,6 +925,12 @@ impl Check for C16 {
                 let vm = checks::vmsim::VmSc { init: init.clone(), faults: vec![], limits: vec![], rebuild_at: None, long: false };
                 for s in vmgen::shrink(&vm) {
                     out.push(Sc::Push { init: s.init, perm_seed: *perm_seed });
+                }
+            }
+            Sc::ManyInputs { n, scheme, seed } => {
+                if *n > 2 {
+                    out.push(Sc::ManyInputs { n: n / 2, scheme: *scheme, seed: *seed });
+                    out.push(Sc::ManyInputs { n: n - n / 8 - 1, scheme: *scheme, seed: *seed });
                 }
             }
         }
